@@ -271,7 +271,11 @@ where
                     (None, None, vec![])
                 }
             }
-            SpacesArgs::SpaceUpdate { .. } => unimplemented!(),
+            // Space updates are not supported yet, we reject them instead of crashing on a message
+            // kind a remote peer can choose.
+            SpacesArgs::SpaceUpdate { .. } => {
+                return Err(ManagerError::UnexpectedMessage(message.hash()));
+            }
             // Received encrypted application data for a space.
             SpacesArgs::Application { space_id, .. } => {
                 let Some(space) = self.space(*space_id).await? else {
